@@ -624,6 +624,12 @@ class FuncLowerer:
         if self.is_log_stmt(s):
             self.dropped_logs += 1
             return [pad + '/* log statement dropped */;']
+        core = s
+        while core.get('kind') in ('ExprWithCleanups', 'ParenExpr') and core.get('inner'):
+            core = core['inner'][0]
+        if s.get('valueCategory') == 'lvalue' and core.get('kind') in ('CallExpr', 'CXXMemberCallExpr', 'CXXOperatorCallExpr'):
+            # discarded-value lvalue (e.g. a call returning a reference): C++ does not read it
+            return [pad + '(void)' + self.addr(s) + ';']
         return [pad + self.expr(s) + ';']
 
     def stmt_block(self, s, ind):
